@@ -528,7 +528,7 @@ pub fn drive_serde(cx: &mut Ctx) {
             dispatch!(d, k, serde_cellless_case(cx, &mut r, i));
         }
     }
-    let per_dim = if cx.thorough { 80 } else { 12 };
+    let per_dim = if cx.thorough { 200 } else { 12 };
     for d in 2..=5usize {
         for i in 0..per_dim {
             let mut r = Rng::new(cx.seed * 4_000_037 + (d * 100_000 + i) as u64);
@@ -665,7 +665,7 @@ fn periodic_case<K: Kern<2>>(cx: &mut Ctx, r: &mut Rng, idx: usize) {
 }
 
 pub fn drive_toroidal(cx: &mut Ctx) {
-    for i in 0..(if cx.thorough { 160 } else { 40 }) {
+    for i in 0..(if cx.thorough { 400 } else { 40 }) {
         let mut r = Rng::new(cx.seed * 6_000_029 + i as u64);
         if !cx.mine() {
             continue;
@@ -676,7 +676,7 @@ pub fn drive_toroidal(cx: &mut Ctx) {
             periodic_case::<RobustKernel<f64>>(cx, &mut r, i);
         }
     }
-    let per_dim = if cx.thorough { 150 } else { 24 };
+    let per_dim = if cx.thorough { 400 } else { 24 };
     for d in 2..=3usize {
         for i in 0..per_dim {
             let mut r = Rng::new(cx.seed * 6_000_011 + (d * 100_000 + i) as u64);
@@ -872,7 +872,7 @@ fn determinism_case<K: Kern<D>, const D: usize>(cx: &mut Ctx, r: &mut Rng, idx: 
 }
 
 pub fn drive_determinism(cx: &mut Ctx, out_path: &str) {
-    let per_dim = if cx.thorough { 60 } else { 10 };
+    let per_dim = if cx.thorough { 150 } else { 10 };
     for d in 2..=5usize {
         for i in 0..per_dim {
             let mut r = Rng::new(cx.seed * 8_000_009 + (d * 100_000 + i) as u64);
